@@ -68,6 +68,7 @@ M = [
     ("assign-dropped", "src", "self.0.conditional_assign(&other.0, choice);", "", 1),
     # specification mutants: the explicit headroom preconditions are NEEDED (dropping one makes a diff_sum call site fail)
     ("spec-add-without-headroom", "tpl", "        && ifma_add_headroom(*self, *rhs)     //", "        //", 1),
+    ("spec-add-H1-only", "tpl", "        && ifma_add_headroom(*self, *rhs)     //", "        && xp_headroom(*self)     //", 1),
     ("spec-sub-without-headroom", "tpl", "        && ifma_sub_headroom(*self, *rhs)     //", "        //", 1),
     ("spec-to_cached-without-headroom", "tpl", "//@|        requires xp_headroom(P),     //", "//@|        requires true,     //", 1),
 ]
@@ -158,7 +159,7 @@ def vacuity(only=None):
     i = 0
     while i < len(gen):
         m = re.match(r"^\s*(pub )?(broadcast )?proof fn (\w+)", gen[i])
-        if m and i not in covered:
+        if m and i not in covered and not (i > 0 and "external_body" in gen[i - 1]):     # trusted axioms (M1, M3) have no verified body: not probes
             j = i
             while j < len(gen) and gen[j].rstrip() != "{" and not gen[j].rstrip().endswith("{}"):
                 j += 1
